@@ -22,6 +22,13 @@
 (*    stl.Write(bin) -> f2                                                 *)
 (*   Harness.Encode  C07.BinReadOk  C07.BinRecords  C07.BinWriteOk         *)
 (*   C07.BinSize  C07.BinRewrite                                           *)
+(* {"k":"sz","dir":"w"|"r","n":N,"werr":"","f":sizes,"rerr":"","rdn":M,    *)
+(*  "f2":sizes}   sizes = [nbytes, count, rem, nrecs] (no records)         *)
+(*    dir "w": mesh of N triangles -> stl.WriteMesh -> f -> stl.ReadMesh   *)
+(*             -> M triangles        C07.WriteOk SizeLaw ReadOk RtCount    *)
+(*    dir "r": N records -> encoder -> f -> stl.ReadMesh -> M triangles    *)
+(*             -> stl.WriteMesh -> f2   C07.ReadOk RdCount RwOk RwSize     *)
+(*    for triangle counts too large to judge record by record              *)
 (* Lines also carry "io": the reader/writer variant the case ran with      *)
 (* (harness/objstl/iomodes.go) - for humans; the judgement is the same.    *)
 (* Rejected lines print {"l":..,"bad":[..],"why":[..]}; ex counts per      *)
@@ -106,7 +113,24 @@ SbJudge(ln) ==
                     \cup (IF n > 0 THEN {"C07.BinRecords"} ELSE {})
                     \cup (IF \E t \in DOMAIN ln.gen : ln.gen[t].a # 0 THEN {"C07.BinRecords.attr"} ELSE {})]
 
-Judge(ln) == IF ln.k = "sw" THEN SwJudge(ln) ELSE IF ln.k = "sr" THEN SrJudge(ln) ELSE SbJudge(ln)
+\* sizes only: the size law and the triangle count, in both directions
+SzJudge(ln) ==
+    IF ln.dir = "w"
+    THEN IF ln.werr # "" THEN [bad |-> {"C07.WriteOk"}, why |-> {ln.werr}, ex |-> {"C07.WriteOk"}]
+         ELSE [bad |-> Bad("C07.SizeLaw", SizeLawN(ln.f, ln.n))
+                       \cup (IF ln.rerr # "" THEN {"C07.ReadOk"} ELSE Bad("C07.RtCount", ln.rdn = ln.n)),
+               why |-> IF ln.rerr # "" THEN {ln.rerr} ELSE {},
+               ex |-> {"C07.WriteOk", "C07.SizeLaw", "C07.SizeLaw.large", "C07.ReadOk"}
+                      \cup (IF ln.rerr = "" THEN {"C07.RtCount", "C07.RtCount.large"} ELSE {})]
+    ELSE IF ~SizeLawN(ln.f, ln.n) THEN [bad |-> {"Harness.Encode"}, why |-> {}, ex |-> {}]
+    ELSE IF ln.rerr # "" THEN [bad |-> {"C07.ReadOk"}, why |-> {ln.rerr}, ex |-> {"C07.ReadOk"}]
+    ELSE IF ln.rdn # ln.n THEN [bad |-> {"C07.RdCount"}, why |-> {}, ex |-> {"C07.ReadOk", "C07.RdCount"}]
+    ELSE IF ln.werr # "" THEN [bad |-> {"C07.RwOk"}, why |-> {ln.werr}, ex |-> {"C07.ReadOk", "C07.RdCount", "C07.RwOk"}]
+    ELSE [bad |-> Bad("C07.RwSize", SizeLawN(ln.f2, ln.n)), why |-> {},
+          ex |-> {"C07.ReadOk", "C07.RdCount", "C07.RdCount.large", "C07.RwOk", "C07.RwSize", "C07.RwSize.large"}]
+
+Judge(ln) == CASE ln.k = "sw" -> SwJudge(ln) [] ln.k = "sr" -> SrJudge(ln) [] ln.k = "sb" -> SbJudge(ln)
+               [] OTHER -> SzJudge(ln)
 
 Bump(cnt, names) == [p \in (DOMAIN cnt) \cup names |->
                         (IF p \in DOMAIN cnt THEN cnt[p] ELSE 0) + (IF p \in names THEN 1 ELSE 0)]
